@@ -54,7 +54,7 @@ BOUNDS = {
                      HMins={2}, HMaxs={3}, HDepth=2, HThin=3, HBothW=False),
     "thorough": dict(MaxLen=4, Vals=set(range(1, 7)), BinSizes={1, 2, 3, 5}, NBinSet={1, 2, 3, 4}, LimVals=set(range(0, 8)),
                      RepFan=1, HLens={1, 2, 3}, HVals={1, 2, 4}, HBinSizes={1, 2}, HNBins={2, 3}, HNPer={1, 2},
-                     HMins={2}, HMaxs={3}, HDepth=3, HThin=24, HBothW=True),
+                     HMins={2}, HMaxs={3}, HDepth=3, HThin=48, HBothW=True),
 }
 
 
